@@ -55,13 +55,21 @@ def classify(text):
     return 'str'
 
 
-_DIG = {c: i for i, c in enumerate('0123456789abcdef')}
+def _digit(c):
+    o = ord(c)
+    if 48 <= o <= 57:
+        return o - 48
+    if 97 <= o <= 102:
+        return o - 87
+    if 65 <= o <= 70:
+        return o - 55
+    raise AssertionError('not a digit')
 
 
 def _digits(s, base):
     n = 0
     for c in s:
-        d = _DIG[c.lower()]
+        d = _digit(c)
         assert d < base
         n = n * base + d
     return n
